@@ -207,9 +207,20 @@ def run(ctx):
             known_hits.setdefault(e["id"], []).append(pid)
         else:
             unexplained.append((pid, src, py, feats, r))
-    for e in ctx.known_findings():
-        if e["id"] in known_hits:
-            ctx.print_known(e, f"{e.get('summary', '')} [{len(known_hits[e['id']])} program(s) of this class in this run, e.g. {known_hits[e['id']][0]}]")
+    # every listed finding is replayed on its recorded witness; the line is printed when the witness still fails with the
+    # recorded signature (a finding that no longer reproduces is only noted in the evidence)
+    wl = [e for e in ctx.known_findings() if e.get("witness_py")]
+    wres = fragrun.run_programs([("k_" + e["id"], e["witness"], e["witness_py"]) for e in wl], erg) if wl else []
+    gone = []
+    for e, r in zip(wl, wres):
+        still = (r["erg_class"], r["erg_out"]) != (r["py_class"], r["py_out"]) and \
+            known_behavioural(ctx, [e.get("match", {}).get("feature", "")] + derived_features(e["witness_py"], r), r) is not None
+        if still:
+            n = len(known_hits.get(e["id"], []))
+            ctx.print_known(e, f"{e.get('summary', '')} [witness still fails as recorded: real {r['erg_class']} vs Python reading {r['py_class']}; {n} generated program(s) of this class in this run]")
+        else:
+            gone.append(e["id"])
+    extra["known_findings_no_longer_reproducing"] = gone
     extra["behavioural_mismatches_known"] = {k: len(v) for k, v in known_hits.items()}
     extra["behavioural_mismatches_unexplained"] = len(unexplained)
     if unexplained:
